@@ -103,7 +103,7 @@ Bytes random_trailing(Rng &rng);
 // C10: a stream whose data / trailing bytes contain planted 48-bit block-header patterns
 GenOut gen_planted(Rng &rng, int *kind_out);
 // one block with exactly nsyms non-run symbols (flat 8-bit tables); see bz.cc
-GenOut gen_full_block(Rng &rng, size_t nsyms, int level, bool max_origptr);
+GenOut gen_full_block(Rng &rng, size_t nsyms, int level, bool max_origptr, bool randomised = false);
 
 // ---------------------------------------------------------------- C04 model
 // Offsets (into input) at which blocks end, for capacity cap bytes after RLE.
